@@ -100,6 +100,39 @@ def check(ctx):
             ctx.fail(fn, st.stmt, st.why, construct="removal idiom: candidates stacked first, keep idx < len(candidates)")
         else:
             ctx.undecided(f"removal idiom at line {st.stmt.lineno}: {st.why}")
+    # both blocks are rounded to the same tolerance = half the mesh tolerance
+    from ..terms import linear
+    from .common import iter_stores as _is, reaching_assignments as _ra
+
+    for st in rem:
+        stack = None
+        for n in ast.walk(fn.node):
+            if isinstance(n, ast.Call) and canon(n.func) in ("np.vstack", "np.concatenate") and n.args and isinstance(n.args[0], (ast.Tuple, ast.List)) and len(n.args[0].elts) == 2:
+                stack = n
+        if stack is None:
+            continue
+        tols = []
+        for e in stack.args[0].elts:
+            d = e
+            if isinstance(d, ast.Name):
+                dd = _ra(prog, fn, d.id, stack)
+                d = dd[0] if len(dd) == 1 else d
+            if isinstance(d, ast.Call) and canon(d.func) == "np.round" and d.args and isinstance(d.args[0], ast.BinOp) and isinstance(d.args[0].op, ast.Div):
+                tols.append(d.args[0].right)
+            else:
+                tols.append(None)
+        if None in tols:
+            ctx.undecided("the blocks compared for coincidence are not both np.round(rows / tol)")
+            continue
+        same = canon(tols[0]) == canon(tols[1])
+        tdef = tols[0]
+        if isinstance(tdef, ast.Name):
+            dd = _ra(prog, fn, tdef.id, stack)
+            tdef = dd[0] if len(dd) == 1 else tdef
+        lt, lc = linear(tdef)
+        tolp = fs.params[3] if len(fs.params) > 3 else "tol_mesh"
+        half = lt == {tolp: __import__("fractions").Fraction(1, 2)} and lc == 0
+        ctx.check(same and half, fn, stack, "candidates and log rounded to the same tolerance tol_mesh/2", f"coincidence with evaluated points is tested at tolerance '{canon(tdef)}' (candidates: {canon(tols[0])}, log: {canon(tols[1])}), not half the mesh tolerance for both", construct=f"coincidence tolerance {canon(tdef)} / {canon(tols[0])} vs {canon(tols[1])}")
     # the log slice compared against must cover all filled rows
     for st in rem:
         for n in ast.walk(fn.node):
